@@ -23,7 +23,7 @@ RULE = ("event sequences over a real ProxiedCircuit with a harness-owned clock: 
         "with appended acks chosen from what it has been shown (none / all outstanding / oldest / newest-injected+newest-real), "
         "sends a PacketAck (body and optionally appended acks, incl. bodies naming only injected packets), retransmits, the "
         "proxy injects (un)reliable either way, drops the packet it is forwarding (with piggy-backed acks, reliable or not), "
-        "clock advances (3.1 s / 1 s) followed by resend_unacked().  Every emission is compared with a two-endpoint reference "
+        "clock advances (3.1 s / 1 s / fractions / a day) followed by resend_unacked(), the retransmission interval itself set to 3 s, 2.5 s, 1.25 s or 0.4 s.  Every emission is compared with a two-endpoint reference "
         "model after every event.  Exhaustive to a depth bound over 17 concrete events, Hypothesis walks beyond.  "
         "Non-trivial = history with an injection followed by an ack or a drop carrying acks; distinct by event sequence.")
 ASSUMPTIONS = [
